@@ -937,3 +937,10 @@ package channel
 //@   method Withdraw
 //@     requires recv != nil
 //@ end
+
+// State.Equal (C15): equal exactly when every transmitted field is - id, version, app (by definition), the whole allocation,
+// the app data's encoding and the final flag.
+//@ func (*State).Equal
+//@   requires s != nil && t != nil && s.App != nil && t.App != nil && allocNonNil(&s.Allocation) && allocNonNil(&t.Allocation)
+//@   ensures result == nil <==> s == t || (s.ID == t.ID && s.Version == t.Version && appEq(s.App, t.App) && allocEq(&s.Allocation, &t.Allocation) &&
+//@           binEq(s.Data, t.Data) && s.IsFinal == t.IsFinal)
